@@ -92,7 +92,7 @@ def default_asg(skel: Schema):
 
 def skeletons(tier):
     E = {"E": [("A", 0), ("Z", "m0")]}
-    In = ("In", [("p", "id4", ("u", 5)), ("q", "id5", ("enum", "E"))])
+    In = ("In", [("p", "id4", ("u", 5)), ("q", "id5", ("enum", "E")), ("r", 9, ("arr", ("u", 2), 2))])
     can = [("can", "S", None, {"id": 1}, [])]
     out = []
     out.append(("flat4", Schema(structs=[("S", [("a", "id0", ("u", "w0")), ("b", "id1", ("i", "w1")),
@@ -161,6 +161,10 @@ def _bitlen_expr(e):
     return r
 
 
+def _piece(v):
+    return (str(v.name), v.bitstart, v.bitlength, v.endianess, dict(v.extended_data))
+
+
 def c04_case(args):
     name, skel, unroll, tier = args
     encoding = _setup()
@@ -209,7 +213,12 @@ def c04_case(args):
         before = [(s.name, [(f.name, id(f.type)) for f in s.fields]) for s in fcp.structs]
         out = enc.generate(impl)
         after = [(s.name, [(f.name, id(f.type)) for f in s.fields]) for s in fcp.structs]
-        return out, before == after
+        # a real two-call history: the implicit default binding of the same struct laid out by the reused encoder
+        # must equal what a fresh encoder gives (covers state the inductive pre-state does not know about)
+        dflt = [i for i in fcp.impls if i.protocol == "default" and i.type == impl.type][0]
+        again = [_piece(v) for v in enc.generate(dflt)]
+        fresh = [_piece(v) for v in make_encoder("packed", fcp, PackedEncoderContext().with_unroll_arrays(unroll)).generate(dflt)]
+        return out, before == after, again, fresh
 
     def env_of():
         return {"v": {k: x.e for k, x in sym.items()}}
@@ -234,7 +243,19 @@ def c04_case(args):
                        features=feats, env=env_of(), make_replay=mk,
                        what=f"generate raised {type(out).__name__}: {out} on {feats['desc']}")
                 continue
-            values, unchanged = out
+            values, unchanged, again, fresh = out
+            if len(again) != len(fresh) or any(a[0] != f[0] or a[3:] != f[3:] for a, f in zip(again, fresh)):
+                decide(eng, pc, z3.BoolVal(True), prop="C04", ob_id=ob + "|history", res=res, known=known,
+                       features=feats, env=env_of(), make_replay=mk,
+                       what=f"layout of a binding depends on what the encoder laid out before: {again[:3]} vs fresh "
+                            f"{fresh[:3]} on {feats['desc']}")
+                continue
+            hcs = []
+            for a, f in zip(again, fresh):
+                hcs += [z3of(a[1]) == z3of(f[1]), z3of(a[2]) == z3of(f[2])]
+            decide(eng, pc, z3.Not(z3.And(*hcs)) if hcs else z3.BoolVal(False), prop="C04", ob_id=ob + "|history",
+                   res=res, known=known, features=feats, env=env_of(), make_replay=mk,
+                   what=f"bit ranges of a binding depend on what the encoder laid out before on {feats['desc']}")
             # order: under this path's id order the names must be the reference order
             r, m = eng.check(pc=pc)
             if r != "sat":
